@@ -144,7 +144,8 @@ def _ascii_only_letters(s):
 
 def _like_wild(pattern_val, anchored_start, anchored_end):
     rx = "".join(".*" if c == "%" else "." if c == "_" else re.escape(c) for c in pattern_val)
-    return re.compile(("" if not anchored_start else "") + ("^" if anchored_start else "^.*") + rx + ("$" if anchored_end else ".*$"), re.S)
+    # \A / \Z, not ^ / $: "$" would also match before a trailing newline
+    return re.compile(("\\A" if anchored_start else "\\A.*") + rx + ("\\Z" if anchored_end else ".*\\Z"), re.S)
 
 
 def _round_half_away(x):
